@@ -357,8 +357,10 @@ package resolve
 //@   ensures result == nodeKind(recv)
 //@   pure
 //@   trusted plan accessor
+//@ spec nodeKey(n Node) string
 //@ func Node.NodePath
 //@   ensures isFieldValue(recv) ==> len(result) >= 1
+//@   ensures len(result) == 1 ==> result[0] == nodeKey(recv)
 //@   pure
 //@   trusted plan accessor; plan invariant: the value node of an object field is keyed by a non-empty path
 //@ func Node.NodeNullable
@@ -732,6 +734,7 @@ package resolve
 //@   at call SetNull: ghost g_pendingDeny = false
 //@   ensures {denied.field.nulled.or.bubbled} !result ==> !g_pendingDeny
 //@   at call walkNode: assert {denied.field.not.walked} !g_denied
+//@   at call walkNode: assert {error.paths.below.a.field.start.with.its.response.key} nodeKey(arg1) == string(obj.Fields[i].Name)
 //@   at call printBytes: assert {denied.field.not.printed} !g_denied
 //@   ensures {mode.unchanged} modeSame(r)
 //@   ensures {stack.restored} len(r.path) == old(len(r.path))
